@@ -39,6 +39,7 @@ from .values import (
     CallbackVal,
     DObj,
     ElemRef,
+    ExtObj,
     Func,
     IntSeq,
     LObj,
@@ -169,7 +170,8 @@ def getattr_(ex, o, name):
                 from . import contracts as _C
 
                 if isinstance(m_, _C.Callback):
-                    return ex.cfg.fresh(ex, m_, name)
+                    cbv = ex.cfg.fresh(ex, m_, name)
+                    return Bound(cbv, o) if getattr(m_, 'with_self', False) else cbv
                 return Bound(m_, o)
             if name == '__class__':
                 return ho.cls
@@ -192,6 +194,8 @@ def getattr_(ex, o, name):
             if ho.model is not None and name in ho.model.fields:
                 raise Unsupported(f'field {name} of {ho.cls.__name__ if ho.cls else "?"} read before initialisation')
             ex.raise_(AttributeError, name)
+        if name == 'maxlen' and isinstance(ho, LObj) and ho.flavor == 'deque':
+            return ho.maxlen
         return Bound(name, o)
     if isinstance(o, Sym):
         return Bound(name, o)
@@ -361,8 +365,14 @@ def obj_special(ex, ref, name, args):
 # ---------------------------------------------------------------------------
 
 
+RECV_MODELS: dict = {}  # type of an engine-level receiver value -> handler(ex, recv, name, args, kwargs) (extension hook)
+
+
 def call_method(ex, recv, name, args, kwargs, node=None):
     args = [M.plain(a) if not isinstance(a, (Sym, Ref)) else a for a in args]
+    h = RECV_MODELS.get(type(recv))
+    if h is not None:
+        return h(ex, recv, name, args, kwargs)
     if isinstance(recv, OpaqueStr):
         return OpaqueStr()
     if isinstance(recv, Ref):
@@ -375,6 +385,8 @@ def call_method(ex, recv, name, args, kwargs, node=None):
             return dict_method(ex, recv, ho, name, args, kwargs)
         if isinstance(ho, MObj):
             return map_method(ex, recv, ho, name, args, kwargs)
+        if isinstance(ho, ExtObj):
+            return ho.ext_method(ex, recv, name, args, kwargs)
     if isinstance(recv, (Sym, bytes, bytearray)) and ex.kind_of(recv) == 'bytes':
         return bytes_method(ex, recv, name, args, kwargs)
     if isinstance(recv, Sym) and recv.k in ('int', 'bool'):
@@ -411,6 +423,13 @@ def bytes_method(ex, recv, name, args, kwargs):
     if name == 'join':
         items = ex.concrete_iter(args[0])
         if items is None:
+            seq = ex.as_symseq(args[0])
+            if seq is not None and seq.k == ('seq', 'bytes'):
+                # join over a symbolic-length list of byte strings: an uninterpreted pure function of
+                # (separator, list) -- only determinism is known about the result
+                ex.abstraction_used = True
+                jf = z3.Function('pyvc_bytes_join', IntSeq, z3.SeqSort(IntSeq), IntSeq)
+                return mk_bytes(jf(zbytes(ex.as_bytes_value(recv)), seq.t))
             raise Unsupported('join over symbolic iterable')
         parts = []
         sep = ex.as_bytes_value(recv)
@@ -497,7 +516,26 @@ def bytearray_method(ex, ref, ho, name, args, kwargs):
 
 def list_method(ex, ref, ho, name, args, kwargs):
     w = lambda: ex.wobj(ref)
+    if ho.flavor == 'set':
+        if name == 'intersection' and len(args) == 1 and ho.items is not None:
+            out = []
+            for x in ho.items:
+                if ex.branch(ex.truth(M.contains(ex, args[0], ex.wrap(x, ref)))):
+                    out.append(x)
+            return ex.alloc(LObj(out, flavor='set'))
+        raise Unsupported(f'set.{name} on a set with symbolic members')
     if name == 'append':
+        if ho.maxlen is not None:
+            # collections.deque(maxlen=n).append on a full deque discards the item at the left end
+            if ho.maxlen == 0:
+                return None
+            if ho.items is not None:
+                if len(ho.items) >= ho.maxlen:
+                    del w().items[0]
+            elif ex.branch(mk_bool(z3.Length(ho.sym.t) >= ho.maxlen)):
+                s_ = ho.sym.t
+                w().sym = Sym(z3.simplify(z3.Extract(s_, 1, z3.Length(s_) - 1)), ho.sym.k)
+                ho = ex.obj(ref)
         if ho.items is not None:
             w().items.append(args[0])
         else:
@@ -579,6 +617,20 @@ def list_method(ex, ref, ho, name, args, kwargs):
         return None
     if name == 'reverse' and ho.items is not None:
         w().items.reverse()
+        return None
+    if name == 'sort' and ho.items is not None and len(ho.items) <= 4 and not args and set(kwargs) <= {'key'}:
+        # short concrete spine, symbolic keys: stable insertion sort (the result CPython's stable sort gives), one
+        # case split per comparison; the key function is called once per element, in list order, as CPython does
+        keyf = kwargs.get('key')
+        items = list(ho.items)
+        keys = [ex.call(keyf, [ex.wrap(x, ref)], {}) if keyf is not None else ex.wrap(x, ref) for x in items]
+        order = list(range(len(items)))
+        for i in range(1, len(order)):
+            j = i
+            while j > 0 and ex.branch(ex.truth(ex.compare_op(ast.Lt(), keys[order[j]], keys[order[j - 1]]))):
+                order[j], order[j - 1] = order[j - 1], order[j]
+                j -= 1
+        w().items[:] = [items[k] for k in order]
         return None
     raise Unsupported(f'list.{name}')
 
@@ -735,18 +787,91 @@ def int_to_bytes(ex, v, length=1, byteorder='big', *, signed=False):
         ok = z3.And(t >= -(lim // 2), t < lim // 2)
     else:
         ok = z3.And(t >= 0, t < lim)
-    if not ex.spec_mode:
+    src = _split_bytes(ex, v, length, bool(signed))
+    if src is not None and length:
+        units = [z3.Unit(zint(b)) for b in src]
+        if byteorder == 'big':
+            units.reverse()
+        return mk_bytes(z3.Concat(*units) if len(units) > 1 else units[0])
+    if not ex.spec_mode and not (M.in_known_range(ex, v, -(lim // 2), lim // 2 - 1) if signed else M.in_known_range(ex, v, 0, lim - 1)):
         if not ex.branch(mk_bool(ok)):
             ex.raise_(OverflowError, 'int too big to convert')
     u = t % lim if signed else t
     units = []
     for i in range(length):
-        units.append(z3.Unit((u / (1 << (8 * i))) % 256 if i else u % 256))
+        units.append(_byte_unit(ex, (u / (1 << (8 * i))) % 256 if i else u % 256))
+    if not ex.spec_mode:
+        _note_split(ex, v, [un.arg(0) for un in units], length, bool(signed))
     if byteorder == 'big':
         units.reverse()
     if not units:
         return b''
     return mk_bytes(z3.Concat(*units) if len(units) > 1 else units[0])
+
+
+# ---------------------------------------------------------------------------
+# byte decomposition bookkeeping (exact, purely syntactic shortcuts for two theorems of arithmetic):
+#   (1) re-assembling, at the same width and signedness, the bytes that an in-range integer v was split
+#       into gives v again;   (2) splitting an integer that was assembled from sz bytes, at the same width and
+#       signedness, gives those bytes again.
+# Without them every 2/3/4-byte field of every packet costs the solver a div/mod proof.
+# ---------------------------------------------------------------------------
+def _note_split(ex, v, byte_terms, sz, signed):
+    """byte_terms[p] is the (simplified) term of the byte of significance p of the in-range value v"""
+    if ex.quant or not isinstance(v, Sym):
+        return
+    tbl = ex.__dict__.setdefault('split_origin', {})
+    for p, bt in enumerate(byte_terms):
+        if not z3.is_int_value(bt):
+            tbl[bt.get_id()] = (v, p, sz, signed)
+            ex.keep.append(bt)
+
+
+def _joined_value(ex, bytes_by_sig, sz, signed):
+    """the value whose own decomposition (same width, same signedness) these bytes are, or None"""
+    tbl = ex.__dict__.get('split_origin')
+    if not tbl or ex.quant:
+        return None
+    v0 = None
+    for p, b in enumerate(bytes_by_sig):
+        if not isinstance(b, Sym):
+            return None
+        ent = tbl.get(b.t.get_id())
+        if ent is None or ent[1] != p or ent[2] != sz or ent[3] != signed:
+            return None
+        if v0 is None:
+            v0 = ent[0]
+        elif ent[0] is not v0:
+            return None
+    return v0
+
+
+def _note_join(ex, r, bytes_by_sig, sz, signed):
+    """r is the integer assembled from the bytes (by significance) at width sz"""
+    if ex.quant or not isinstance(r, Sym):
+        return
+    ex.__dict__.setdefault('join_origin', {})[r.t.get_id()] = (list(bytes_by_sig), sz, signed)
+    ex.keep.append(r.t)
+
+
+def _split_bytes(ex, v, sz, signed):
+    """the bytes (by significance) v was assembled from at this width and signedness, or None"""
+    tbl = ex.__dict__.get('join_origin')
+    if not tbl or ex.quant or not isinstance(v, Sym):
+        return None
+    ent = tbl.get(v.t.get_id())
+    if ent is None or ent[1] != sz or ent[2] != signed:
+        return None
+    return ent[0]
+
+
+def _byte_unit(ex, t):
+    """unit sequence of a term of the form x % 256 (a byte by construction: remembered as such, so that reading
+    it back needs no range analysis)"""
+    t = z3.simplify(t)
+    if not ex.quant and not z3.is_int_value(t):
+        M.mark_byte(ex, t)
+    return z3.Unit(t)
 
 
 def int_from_bytes(ex, b, byteorder='big', *, signed=False):
@@ -768,18 +893,28 @@ def int_from_bytes(ex, b, byteorder='big', *, signed=False):
         raise Unsupported('int.from_bytes of a string of symbolic length')
     total = z3.IntVal(0)
     fields = []
+    by_sig = [None] * n
     for i in range(n):
         byte = M.read_byte(ex, b.t, z3.IntVal(i))
         p = i if byteorder == 'little' else n - 1 - i
+        by_sig[p] = byte
         total = total + zint(byte) * (1 << (8 * p))
         fields.append((zint(byte), 8 * p, 8))
+    if n:
+        whole = _joined_value(ex, by_sig, n, bool(signed))
+        if whole is not None:
+            return whole
     if signed and n:
         lim = 1 << (8 * n)
         total = z3.If(total >= lim // 2, total - lim, total)
-        return mk_int(total)
+        r = mk_int(total)
+        _note_join(ex, r, by_sig, n, True)
+        return r
     r = mk_int(total)
     if n > 4:
         r = M.name_int(ex, r, 'ifb')  # one name for the big sum keeps later terms small
+    if n:
+        _note_join(ex, r, by_sig, n, False)
     return M.bf_set(ex, r, fields)
 
 
@@ -853,15 +988,23 @@ def struct_unpack_from(ex, fmt, buf, offset=0):
             continue
         sz, signed = _STRUCT_CODES[code]
         total = z3.IntVal(0)
+        by_sig = [None] * sz
         for i in range(sz):
             byte = M.read_byte(ex, bt, z3.simplify(pos + i))
             p = i if order == 'little' else sz - 1 - i
+            by_sig[p] = byte
             total = total + zint(byte) * (1 << (8 * p))
+        pos = pos + sz
+        whole = _joined_value(ex, by_sig, sz, signed)
+        if whole is not None:
+            out.append(whole)
+            continue
         if signed:
             lim = 1 << (8 * sz)
             total = z3.If(total >= lim // 2, total - lim, total)
-        out.append(mk_int(total))
-        pos = pos + sz
+        r = mk_int(total)
+        _note_join(ex, r, by_sig, sz, signed)
+        out.append(r)
     return tuple(out)
 
 
@@ -915,12 +1058,22 @@ def struct_pack(ex, fmt, *vals):
             parts.append(bytes_lit(int(v).to_bytes(sz, order, signed=signed)))
             continue
         t = zint(v)
+        src = _split_bytes(ex, v, sz, signed)
+        if src is not None:
+            # assembled from these very bytes at this width: in range by construction
+            units = [z3.Unit(zint(b)) for b in src]
+            if order == 'big':
+                units.reverse()
+            parts.extend(units)
+            continue
         ok = z3.And(t >= -(lim // 2), t < lim // 2) if signed else z3.And(t >= 0, t < lim)
-        if not ex.spec_mode:
+        if not ex.spec_mode and not (M.in_known_range(ex, v, -(lim // 2), lim // 2 - 1) if signed else M.in_known_range(ex, v, 0, lim - 1)):
             if not ex.branch(mk_bool(ok)):
                 raise PyExc(ex.new_exception(_struct.error, 'argument out of range'))
         u = t % lim if signed else t
-        units = [z3.Unit((u / (1 << (8 * i))) % 256 if i else u % 256) for i in range(sz)]
+        units = [_byte_unit(ex, (u / (1 << (8 * i))) % 256 if i else u % 256) for i in range(sz)]
+        if not ex.spec_mode:
+            _note_split(ex, v, [un.arg(0) for un in units], sz, signed)
         if order == 'big':
             units.reverse()
         parts.extend(units)
@@ -1204,13 +1357,19 @@ def m_set(ex, *args):
     if not args:
         return frozenset()
     items = ex.concrete_iter(args[0])
-    if items is None or not all(ex.is_hashable_conc(x) for x in items):
-        raise Unsupported('set() of symbolic members')
+    if items is None:
+        raise Unsupported('set() of an iterable of symbolic length')
+    if not all(ex.is_hashable_conc(x) for x in items):
+        # members with symbolic values: a concrete spine of members that may coincide (flavor 'set':
+        # membership, iteration, truth value and intersection are exact; len() is refused)
+        return ex.alloc(LObj([M.unwrap_key(x) for x in items], flavor='set'))
     return frozenset(items)
 
 
 def m_enumerate(ex, it, start=0):
     items = ex.concrete_iter(it)
+    if items is None and ex.skeleton and isinstance(it, Unknown):
+        return Unknown('enumerate')
     if items is None:
         raise Unsupported('enumerate over symbolic iterable')
     return ConcIter([(start + i, x) for i, x in enumerate(items)])
@@ -1218,6 +1377,8 @@ def m_enumerate(ex, it, start=0):
 
 def m_zip(ex, *its, **kw):
     lists = [ex.concrete_iter(i) for i in its]
+    if ex.skeleton and any(isinstance(i, Unknown) for i in its):
+        return Unknown('zip')
     if any(l is None for l in lists):
         if kw:
             raise Unsupported('zip(strict=) over symbolic iterable')
@@ -1269,7 +1430,7 @@ def m_id(ex, v):
 
 
 def m_type(ex, v):
-    t = M.pytype_of(ex, v) if hasattr(M, 'pytype_of') else None
+    t = pytype_of(ex, v)
     if t is None:
         raise Unsupported('type()')
     return t
@@ -1399,10 +1560,12 @@ CLASS_MODELS[map] = m_map
 
 
 def m_deque(ex, *args, **kw):
-    if kw.get('maxlen') is not None:
-        raise Unsupported('deque(maxlen)')
+    maxlen = M.plain(kw.get('maxlen'))
+    if maxlen is not None and (not isinstance(maxlen, int) or args):
+        raise Unsupported('deque(iterable, maxlen) / symbolic maxlen')
     r = m_list(ex, *args)
     ex.wobj(r).flavor = 'deque'
+    ex.wobj(r).maxlen = maxlen
     return r
 
 
@@ -1439,6 +1602,15 @@ def event_method(ex, recv, name, args):
 LIB_METHODS = {asyncio.Event: event_method}
 
 
+def _deep_conc(ex, a):
+    """a value python itself can take as an argument of a native method: no symbolic part, no engine-level wrapper"""
+    if isinstance(a, ConcIter):
+        return False
+    if isinstance(a, (tuple, list)):
+        return all(_deep_conc(ex, x) for x in a)
+    return ex.is_conc(a)
+
+
 def call_native(ex, f, args, kwargs, node=None):
     # contract kwarg `stubs={native callable: Callback}`: a library function outside the kernel
     # (asyncio.wait_for, asyncio.create_task, ...) is replaced by a recorded callback (environment)
@@ -1456,6 +1628,11 @@ def call_native(ex, f, args, kwargs, node=None):
         model = None
     if model is not None:
         return model(ex, *args, **kwargs)
+    if isinstance(f, functools.partial):
+        # functools.partial(func, *a, **k)(*args, **kwargs) == func(*a, *args, **{**k, **kwargs})
+        kw = {k: ex.import_native(v) for k, v in f.keywords.items()}
+        kw.update(kwargs)
+        return ex.call(ex.import_native(f.func), [ex.import_native(a) for a in f.args] + list(args), kw, node)
     if isinstance(f, NativeMethod):
         mod_ = getattr(f.raw, '__module__', '') or ''
         if getattr(f.raw, '__name__', '') == '__init__' and (mod_.startswith('pyee') or f.raw is object.__init__):
@@ -1468,16 +1645,21 @@ def call_native(ex, f, args, kwargs, node=None):
         fn = ex.func_of_native(f.__func__)
         if isinstance(fn, Func):
             return ex.call(fn, [f.__self__] + list(args), kwargs, node)
+    if isinstance(f, types.FunctionType):
+        # a plain function object reached through a reflected container (e.g. a lambda stored in a field spec)
+        fn = ex.func_of_native(f)
+        if isinstance(fn, Func):
+            return ex.call(fn, args, kwargs, node)
     recv = getattr(f, '__self__', None)
     name = getattr(f, '__name__', None)
     if recv is not None and not isinstance(recv, types.ModuleType) and name:
-        conc = all(ex.is_conc(a) for a in args) and all(ex.is_conc(a) for a in kwargs.values())
+        conc = all(_deep_conc(ex, a) for a in args) and all(_deep_conc(ex, a) for a in kwargs.values())
         if conc and (isinstance(recv, (int, str, bytes, tuple, frozenset, float, range, enum.Enum)) or isinstance(recv, type)):
             try:
                 return ex.import_native(f(*args, **kwargs))
             except Exception as e:
                 raise PyExc(e)
-        if isinstance(recv, dict):
+        if isinstance(recv, (dict, types.MappingProxyType)):
             if name == 'get':
                 return M.native_dict_get(ex, recv, args[0], missing='default', default=args[1] if len(args) > 1 else None)
             if name in ('keys', 'values', 'items') and not args:
@@ -1575,6 +1757,10 @@ def instantiate_repo_class(ex, cls, args, kwargs, node):
             vals[k] = v
         for f in dataclasses.fields(cls):
             if f.name in vals:
+                continue
+            if not f.init and f.default_factory is dataclasses.MISSING:
+                # the generated __init__ does not assign an init=False field without a default_factory:
+                # a plain default stays a *class* attribute (which a subclass may override)
                 continue
             if f.default is not dataclasses.MISSING:
                 vals[f.name] = ex.import_native(f.default)
